@@ -89,3 +89,44 @@ def enumTo (m q now : Nat) : List (Nat × Nat) :=
   (List.range q).flatMap (fun a => (List.range m).map (fun b => (a, b))) ++ (List.range now).map (fun b => (q, b))
 
 end Sedpack.PMap
+
+namespace Sedpack.PMap
+
+/-! ## Worker failure (a shard that cannot be read makes the worker's function panic)
+
+`fails a b` says whether the function panics on item `(a, b)`.  A panicking worker thread dies
+without sending anything.  `propagate = false` is the pinned `ParallelMap::next`
+(`recv().unwrap_or_default()`: a receive error is the end of the iteration); `propagate = true`
+is the repaired one (a receive error from a worker that was not told to finish is a failure). -/
+
+structure FCfg where
+  c : Cfg
+  fails : Nat → Nat → Bool
+  propagate : Bool
+
+structure FSt where
+  s : St
+  died : Nat → Bool       -- worker w was killed by a panic of its function
+  failed : Bool           -- `next()` raised
+
+def finit (f : FCfg) : FSt := { s := init f.c, died := fun _ => false, failed := false }
+
+def fstep (f : FCfg) (t : FSt) : Lbl → Option FSt
+  | .wSend w =>
+    -- the item being processed is the (posIn w - 1)-th of slot w
+    if w < f.c.m ∧ t.s.exited w = false ∧ t.s.posIn w = t.s.posW w + 1 ∧ f.fails (t.s.posW w) w = true then
+      some { t with s := { t.s with exited := upd t.s.exited w true }, died := upd t.died w true }
+    else (step f.c t.s (.wSend w)).map (fun s' => { t with s := s' })
+  | .cNext =>
+    if t.failed then none
+    else if f.c.m ≠ 0 ∧ ¬ (t.s.ended ∨ t.s.dropped) ∧ ¬ (t.s.posOut t.s.now < t.s.posW t.s.now) ∧ t.s.exited t.s.now = true ∧
+        t.s.fin t.s.now = false ∧ f.propagate then
+      some { t with failed := true }          -- the worker died without having been told to finish
+    else (step f.c t.s .cNext).map (fun s' => { t with s := s' })
+  | l => (step f.c t.s l).map (fun s' => { t with s := s' })
+
+def faccepts (f : FCfg) : FSt → List Lbl → Option FSt
+  | t, [] => some t
+  | t, l :: ls => (fstep f t l).bind (fun t' => faccepts f t' ls)
+
+end Sedpack.PMap
